@@ -73,6 +73,11 @@ pub proof fn lemma_quote_lits()
     assert("'"@ =~= seq!['\'']); assert("&"@ =~= seq!['&']); assert("|"@ =~= seq!['|']); assert(""@ =~= Seq::<char>::empty());
 }
 
+// parser_line::trim_command: the command text without the unescaped ASCII blanks around it (char-vector loop with slices: left uninterpreted here;
+// an escaped blank at the end stays -- exercised by the bounded argv cases)
+pub uninterp spec fn spec_trim_cmd(s: Seq<char>) -> Seq<char>;
+#[verifier::external_body]
+pub fn trim_command(text: &str) -> (r: String) ensures r@ == spec_trim_cmd(text@) { unimplemented!() }
 //@FN wrap_sep_string
 //@FN tokens_to_args
 //@FN tokens_to_line
